@@ -641,6 +641,7 @@ func init() {
 			ruleFixedWrap(c)
 			ruleRepeatedNesting(c)
 			ruleOptionRejected(c)
+			ruleBuildCycle(c)
 			ruleReflectPre(c)
 		},
 	})
